@@ -12,6 +12,20 @@
 (* stages on the same chain.  For the late global plugin the statement     *)
 (* leaves open whether already registered routes pick it up: its hooks on  *)
 (* the route chain are optional (but, if they fire, in the right place).   *)
+(*                                                                         *)
+(* Second class (records with an `origin` field): HOW the global lists     *)
+(* came into being, with the same final lists judged the same way.         *)
+(* origin = "literal" (plugins as literal arguments of NewPeer, as above), *)
+(* "sparecap" (NewPeer is handed a slice that has room to spare),          *)
+(* "removedleft" / "removedright" (one more global plugin LX / RX, at      *)
+(* either end of its list, removed by name before the routes exist),       *)
+(* "twoleft" / "tworight" (two plugins appended at once onto a peer that   *)
+(* already has some on that side).  `build` lists the construction steps   *)
+(* for the driver.  These scenarios always have two sibling handlers with  *)
+(* different handler-level plugins and call BOTH routes, in either order   *)
+(* (`calls`, each with its own expected hook sequence); at most one        *)
+(* handler-level plugin vetoes at a body stage, so a veto concerns exactly *)
+(* one of the two routes.                                                  *)
 (***************************************************************************)
 EXTENDS Naturals, Sequences, FiniteSets, TLC, Json, IOUtils
 CONSTANTS Export
@@ -53,16 +67,70 @@ Expected(c) ==
 OptionalHooks(c) == {p \o "." \o s : p \in Optional(c), s \in {"PreReadCallBody", "PostReadCallBody", "PreWriteReply", "PostWriteReply"}}
 Invoked(c) == c.vidx = 0
 
+\* --- second class: origin of the global lists, both sibling routes called --------------------------------------
+Origins == {"literal", "sparecap", "removedleft", "removedright", "twoleft", "tworight"}
+OCfgs == {c \in [origin : Origins, xpos : 0..2, nl : 0..2, nr : 0..2, depth : 0..2, gp : [1..3 -> 0..1], sib : {2}, hp : [1..2 -> 0..1],
+                 late : {"none", "left", "right"}, order : {<<1, 2>>, <<2, 1>>}, vetopl : {"none", "H1", "H2"},
+                 vstage : {"PreReadCallBody", "PostReadCallBody"}] :
+           /\ c.hp[1] + c.hp[2] >= 1                                   \* the siblings differ in their handler-level plugins
+           /\ \A i \in 1..3 : i > c.depth => c.gp[i] = 0
+           /\ (c.vetopl = "H1" => c.hp[1] = 1) /\ (c.vetopl = "H2" => c.hp[2] = 1)
+           /\ (c.vetopl = "none" => c.vstage = "PreReadCallBody")
+           /\ (c.origin = "twoleft" => c.nl >= 1) /\ (c.origin = "tworight" => c.nr >= 1)
+           /\ c.xpos \in (CASE c.origin = "removedleft" -> {0, c.nl} [] c.origin = "removedright" -> {0, c.nr} [] OTHER -> {0})}
+IsO(c) == "origin" \in DOMAIN c
+InsertAt(s, k, x) == SubSeq(s, 1, k) \o <<x>> \o SubSeq(s, k + 1, Len(s))
+\* the final lists
+OLeft(c)  == (IF c.late = "left" THEN <<"LL">> ELSE <<>>) \o (IF c.origin = "twoleft" THEN <<"LA", "LB">> ELSE <<>>) \o Names("L", c.nl)
+ORight(c) == Names("R", c.nr) \o (IF c.origin = "tworight" THEN <<"RA", "RB">> ELSE <<>>) \o (IF c.late = "right" THEN <<"LR">> ELSE <<>>)
+OGlobal(c) == OLeft(c) \o ORight(c)
+OChain(c, t) == OLeft(c) \o Groups(c) \o (IF c.hp[t] = 1 THEN <<"H" \o Num(t)>> ELSE <<>>) \o ORight(c)
+\* how they are built before the routes are registered (the late plugin comes after the routes, as in the first class)
+BStep(op, how, names) == [op |-> op, how |-> how, names |-> names]
+Build(c) ==
+  LET l0 == IF c.origin = "removedleft" THEN InsertAt(Names("L", c.nl), c.xpos, "LX") ELSE Names("L", c.nl)
+      r0 == IF c.origin = "removedright" THEN InsertAt(Names("R", c.nr), c.xpos, "RX") ELSE Names("R", c.nr)
+  IN  <<BStep("newpeer", IF c.origin = "sparecap" THEN "sparecap" ELSE "literal", l0)>>
+   \o [i \in 1..Len(r0) |-> BStep("appendright", "", <<r0[i]>>)]
+   \o (IF c.origin = "twoleft" THEN <<BStep("appendleft", "", <<"LA", "LB">>)>> ELSE <<>>)
+   \o (IF c.origin = "tworight" THEN <<BStep("appendright", "", <<"RA", "RB">>)>> ELSE <<>>)
+   \o (IF c.origin = "removedleft" THEN <<BStep("remove", "", <<"LX">>)>> ELSE <<>>)
+   \o (IF c.origin = "removedright" THEN <<BStep("remove", "", <<"RX">>)>> ELSE <<>>)
+Pos(list, p) == IF \E i \in 1..Len(list) : list[i] = p THEN CHOOSE i \in 1..Len(list) : list[i] = p ELSE 0
+\* the vetoing plugin stops a message only if it is on the list that runs the stage for THAT message
+OStage(list, stage, c) ==
+  LET k == IF c.vstage = stage THEN Pos(list, c.vetopl) ELSE 0
+      cut == IF k > 0 THEN k ELSE Len(list)
+  IN  [i \in 1..cut |-> list[i] \o "." \o stage]
+OVetoed(c, t, stage) == c.vstage = stage /\ Pos(OChain(c, t), c.vetopl) > 0
+OExpected(c, t) ==
+  LET ch == OChain(c, t)
+      h1 == [i \in 1..Len(OGlobal(c)) |-> OGlobal(c)[i] \o ".PostReadCallHeader"]
+      b1 == OStage(ch, "PreReadCallBody", c)
+      b2 == IF OVetoed(c, t, "PreReadCallBody") THEN <<>> ELSE OStage(ch, "PostReadCallBody", c)
+      w1 == [i \in 1..Len(ch) |-> ch[i] \o ".PreWriteReply"]
+      w2 == [i \in 1..Len(ch) |-> ch[i] \o ".PostWriteReply"]
+  IN  h1 \o b1 \o b2 \o w1 \o w2
+OCalls(c) == [i \in 1..2 |-> [target |-> c.order[i], exphooks |-> OExpected(c, c.order[i]),
+                              invoked |-> ~(OVetoed(c, c.order[i], "PreReadCallBody") \/ OVetoed(c, c.order[i], "PostReadCallBody"))]]
+
 VARIABLES c, done
 vars == <<c, done>>
-Init == c \in {x \in Cfgs : VetoOK(x)} /\ done = FALSE
+Init == c \in {x \in Cfgs : VetoOK(x)} \cup OCfgs /\ done = FALSE
 Run == ~done /\ done' = TRUE /\ UNCHANGED c
 Spec == Init /\ [][Run]_vars
 \* sanity: registration order is respected in the expected chain and no plugin appears twice
-NoDup == \A i, j \in 1..Len(Chain(c)) : i # j => Chain(c)[i] # Chain(c)[j]
-Emit == Export = "" \/
+NoDup == IF IsO(c) THEN \A t \in 1..2 : \A i, j \in 1..Len(OChain(c, t)) : i # j => OChain(c, t)[i] # OChain(c, t)[j]
+         ELSE \A i, j \in 1..Len(Chain(c)) : i # j => Chain(c)[i] # Chain(c)[j]
+EmitO ==
+  Serialize(ToJson([origin |-> c.origin, xpos |-> c.xpos, build |-> Build(c), nl |-> c.nl, nr |-> c.nr, depth |-> c.depth, gp |-> c.gp,
+                    sib |-> c.sib, hp |-> c.hp, late |-> c.late, order |-> c.order, vetopl |-> c.vetopl, vstage |-> c.vstage,
+                    left |-> OLeft(c), right |-> ORight(c), calls |-> OCalls(c), optional |-> OptionalHooks(c)]) \o "\n", Export,
+            [format |-> "TXT", charset |-> "UTF-8", openOptions |-> <<"WRITE", "CREATE", "APPEND">>]).exitValue = 0
+EmitT ==
   Serialize(ToJson([nl |-> c.nl, nr |-> c.nr, depth |-> c.depth, gp |-> c.gp, sib |-> c.sib, hp |-> c.hp, late |-> c.late,
                     target |-> c.target, vetopl |-> VetoPl(c), vstage |-> c.vstage,
                     exphooks |-> Expected(c), optional |-> OptionalHooks(c), invoked |-> Invoked(c)]) \o "\n", Export,
             [format |-> "TXT", charset |-> "UTF-8", openOptions |-> <<"WRITE", "CREATE", "APPEND">>]).exitValue = 0
+Emit == Export = "" \/ (IsO(c) /\ EmitO) \/ (~IsO(c) /\ EmitT)
 =============================================================================
